@@ -381,6 +381,20 @@ def _accumulation(run: Run, f: FuncInfo, cfg: CFG, cand: ast.For, pat: ast.For, 
             if any(ast.unparse(t) == cur_name and not pol for t, pol in cs) or any(
                     ast.unparse(t) == f"not {cur_name}" and pol for t, pol in cs):
                 good_upd = True
+    # third form: `all = <this parameter's result>` followed at once by `if not all: break` --
+    # the flag is still True whenever the assignment runs, so it remains the conjunction
+    for x in upd:
+        if isinstance(x.value, ast.Call) and call_name(x.value) == "_ident_response_matches":
+            xn = cfg.node_of(x)
+            for b in ast.walk(par):
+                if isinstance(b, ast.Break) and owner(b) is par:
+                    bn = cfg.node_of(b)
+                    pcs = cfg.branch_conditions(bn)
+                    if cfg.dominates(xn, bn) and any(
+                            norm_test(t, negate=not pol) == norm_test(
+                                ast.parse(f"not {all_name}", mode="eval").body)
+                            for t, pol in pcs):
+                        good_upd = True
     if good_upd:
         run.ok(R, "request_loop", f"`{all_name}` is the conjunction of the results of all "
                "parameters of the pattern", f"{f.module.rel}:{par.lineno}")
